@@ -585,6 +585,12 @@ impl Check for C06 {
                     let (mut t, exp) = b.table(&tree, 0);
                     let mut routes = Vec::new();
                     apply_setters(b.rng, &mut t, &mut routes, &mut 0);
+                    if b.rng.chance(1, 3) {
+                        // the root has no header: wherever it is told to stand, its pairs come first
+                        // (a table taken out of a parsed document remembers where it stood there)
+                        routes.push("Table::set_position (root)");
+                        t.set_position(b.rng.below(60));
+                    }
                     // what get_values lists for the root section, against a walk of the same tree
                     let mut want = Vec::new();
                     expected_values(&t, &mut Vec::new(), &mut want);
